@@ -264,6 +264,32 @@ stream_lastclock(struct stream *stream)
 	return stream->lastclock;
 }
 
+/* Returns the size of the event placed at the given offset, or -1 if the
+ * bytes that determine it (the header and, for jumbo events, the size of
+ * the jumbo data) are not completely inside the stream. The size is
+ * computed in 64 bits, as the jumbo size comes from the trace. */
+static int64_t
+event_size_at(struct stream *stream, int64_t offset)
+{
+	int64_t left = stream->size - offset;
+	const struct ovni_ev *ev = (const struct ovni_ev *) &stream->buf[offset];
+
+	if (left < (int64_t) sizeof(ev->header))
+		return -1;
+
+	if (ev->header.flags & OVNI_EV_JUMBO) {
+		int64_t fixed = (int64_t) (sizeof(ev->header)
+				+ sizeof(ev->payload.jumbo.size));
+
+		if (left < fixed)
+			return -1;
+
+		return fixed + (int64_t) ev->payload.jumbo.size;
+	}
+
+	return (int64_t) ovni_ev_size(ev);
+}
+
 int
 stream_step(struct stream *stream)
 {
@@ -274,7 +300,8 @@ stream_step(struct stream *stream)
 
 	/* Only step the offset if we have loaded an event */
 	if (stream->cur_ev != NULL) {
-		stream->offset += ovni_ev_size(stream->cur_ev);
+		/* The current event was checked to fit when it was loaded */
+		stream->offset += event_size_at(stream, stream->offset);
 
 		/* It cannot pass the size, otherwise we are reading garbage */
 		if (stream->offset > stream->size) {
@@ -291,14 +318,15 @@ stream_step(struct stream *stream)
 		}
 	}
 
-	stream->cur_ev = (struct ovni_ev *) &stream->buf[stream->offset];
-
 	/* Ensure the event fits */
-	if (stream->offset + ovni_ev_size(stream->cur_ev) > stream->size) {
+	int64_t evsize = event_size_at(stream, stream->offset);
+	if (evsize < 0 || evsize > stream->size - stream->offset) {
 		err("stream '%s' ends with incomplete event",
 				stream->relpath);
 		return -1;
 	}
+
+	stream->cur_ev = (struct ovni_ev *) &stream->buf[stream->offset];
 
 	int64_t clock = stream_evclock(stream, stream->cur_ev);
 
